@@ -333,6 +333,64 @@ func multiNIC(lo, hi int) {
 			}
 			run.Count("udp_datagrams_checked", 1)
 		}
+		// sockets bound to one interface's address: the datagram leaves through the first
+		// matching route entry whose interface owns that address, with that address as source
+		for j := 0; j < 6; j++ {
+			bi := r.Intn(nn)
+			epb, e := s.NewEndpoint(udp.ProtocolNumber, ipv4.ProtocolNumber, &waiter.Queue{})
+			if e != nil {
+				break
+			}
+			if e := epb.Bind(tcpip.FullAddress{Addr: nics[bi].v4, Port: uint16(5100 + j)}, nil); e != nil {
+				epb.Close()
+				continue
+			}
+			dst := []byte{10, byte(r.Intn(nn + 2)), byte(r.Intn(3)), byte(2 + r.Intn(200))}
+			if r.Chance(1, 4) {
+				dst = []byte{byte(11 + r.Intn(200)), 1, 2, 3}
+			}
+			want := -1
+			for _, en := range rt {
+				if len(en.Destination) != 4 || int(en.NIC)-1 != bi {
+					continue
+				}
+				ok := true
+				for i := range dst {
+					if dst[i]&en.Mask[i] != en.Destination[i] {
+						ok = false
+					}
+				}
+				if ok {
+					want = bi
+					break
+				}
+			}
+			payload := r.Bytes(1 + r.Intn(100))
+			dport := uint16(1 + r.Intn(65535))
+			mu.Lock()
+			out = out[:0]
+			mu.Unlock()
+			_, _, werr := epb.Write(tcpip.SlicePayload(payload), tcpip.WriteOptions{To: &tcpip.FullAddress{Addr: tcpip.Address(dst), Port: dport}})
+			mu.Lock()
+			got := append([]emitted(nil), out...)
+			mu.Unlock()
+			epb.Close()
+			rep := map[string]interface{}{"k": k, "routes": fmt.Sprint(rt), "dst": dst, "bound_to": []byte(nics[bi].v4)}
+			switch {
+			case werr != nil && len(got) != 0:
+				run.Violation("C06/route/failed-write-emitted", fmt.Sprintf("Write from a socket bound to %v failed with %v but %d packets were emitted", []byte(nics[bi].v4), werr, len(got)), rep)
+			case werr != nil:
+				run.Count("bound_socket_writes_failed:"+werr.String(), 1)
+			case len(got) != 1:
+				run.Violation("C06/route/packet-count", fmt.Sprintf("one UDP write from a socket bound to %v emitted %d packets", []byte(nics[bi].v4), len(got)), rep)
+			case want < 0:
+				run.Violation("C06/route/bound-socket-no-route", fmt.Sprintf("socket bound to %v (NIC %d) wrote to %v: no route entry of that interface matches, yet a packet left through NIC %d with source %v", []byte(nics[bi].v4), bi+1, dst, got[0].nic+1, got[0].in.Src4), rep)
+			case got[0].nic != want || !bytes.Equal(got[0].in.Src4[:], []byte(nics[bi].v4)) || !bytes.Equal(got[0].in.Dst4[:], dst) || got[0].in.SrcPort != uint16(5100+j):
+				run.Violation("C06/route/bound-socket-addressing", fmt.Sprintf("socket bound to %v:%d (NIC %d) wrote to %v: the packet left through NIC %d as %v:%d > %v", []byte(nics[bi].v4), 5100+j, bi+1, dst, got[0].nic+1, got[0].in.Src4, got[0].in.SrcPort, got[0].in.Dst4), rep)
+			default:
+				run.Count("bound_socket_datagrams_checked", 1)
+			}
+		}
 		// a connected UDP socket: plain writes go to the connected peer, sendto overrides
 		// address and port (same host / other port, other host, exactly the peer)
 		{
@@ -388,8 +446,14 @@ func multiNIC(lo, hi int) {
 				copy(src[:], []byte{10, byte(i + 1), 0, 9})
 				var dst [4]byte
 				copy(dst[:], n.v4)
-				m := rfc.ICMP{Type: 8, Rest: [4]byte{byte(k), byte(k >> 8), 0, byte(plen)}, Payload: r.Bytes(plen)}
-				ip := rfc.IPv4{TTL: 64, Proto: rfc.ProtoICMP, ID: uint16(k), Src: src, Dst: dst, Payload: m.BytesV4(true)}
+				// (some requests carry a non-zero code or a wrong checksum of their own: whatever
+				// the stack answers must still be a well-formed, correctly summed reply)
+				m := rfc.ICMP{Type: 8, Code: []uint8{0, 0, 0, 9}[r.Intn(4)], Rest: [4]byte{byte(k), byte(k >> 8), 0, byte(plen)}, Payload: r.Bytes(plen)}
+				mb := m.BytesV4(true)
+				if r.Chance(1, 5) {
+					mb[3] ^= 0x21
+				}
+				ip := rfc.IPv4{TTL: 64, Proto: rfc.ProtoICMP, ID: uint16(k), Src: src, Dst: dst, Payload: mb}
 				n.link.Inject(ipv4.ProtocolNumber, ip.Bytes(true), "")
 				time.Sleep(time.Millisecond)
 				vt.Quiesce()
